@@ -28,6 +28,9 @@ pub enum Family {
         /// helpers touch no global variable at all (pure math helpers)
         #[serde(default)]
         pure_helpers: bool,
+        /// value-returning helpers also take a `ptr<function, f32>` argument
+        #[serde(default)]
+        ptr_args: bool,
     },
     /// f_i calls f_{i-1} `fan` times (two or more call sites per level).
     Diamond {
@@ -37,6 +40,8 @@ pub enum Family {
         placement: u8,
         #[serde(default)]
         pure_helpers: bool,
+        #[serde(default)]
+        ptr_args: bool,
     },
     /// One shared helper called from `sites` call sites of each of `callers` functions.
     Fanout { sites: u32, callers: u32, kind: u8 },
@@ -57,6 +62,9 @@ pub enum Family {
     /// Chain of override (kind 0) or const (kind 1) declarations, each initialised from the
     /// previous one `fan` times; the last one is used as a workgroup size and in an entry point.
     Decls { depth: u32, fan: u32, kind: u8 },
+    /// n buffers, n small helpers behind one shared fan-out helper, n entry points each touching
+    /// its own buffer: hundreds of declarations, call depth 3.
+    KernelLib { n: u32 },
     /// Breadth instead of depth: many entry points x many globals x many members x vertex inputs.
     Wide { entries: u32, globals: u32, members: u32, vertex_structs: u32 },
 }
@@ -64,6 +72,9 @@ pub enum Family {
 impl Family {
     pub fn name(&self) -> &'static str {
         match self {
+            Family::Chain { ptr_args: true, .. } => "chain_ptr_args",
+            Family::Diamond { ptr_args: true, .. } => "diamond_ptr_args",
+            Family::KernelLib { .. } => "kernel_library",
             Family::Chain { pure_helpers: true, .. } => "chain_pure",
             Family::Diamond { pure_helpers: true, .. } => "diamond_pure",
             Family::Dag { pure_helpers: true, .. } => "layered_dag_pure",
@@ -94,6 +105,7 @@ impl Family {
             Family::Fanout { .. } => 1,
             Family::Flat { .. } => 0,
             Family::Wide { entries, globals, .. } => (*entries).min(*globals),
+            Family::KernelLib { n } => *n,
         }
     }
 
@@ -105,6 +117,7 @@ impl Family {
             | Family::Dag { depth, .. }
             | Family::Decls { depth, .. }
             | Family::Types { depth, .. } => *depth = d,
+            Family::KernelLib { n } => *n = d,
             _ => {}
         }
         f
@@ -222,13 +235,14 @@ fn entry(out: &mut String, stage: u32, name: &str, callee: &str, value: bool) {
 pub fn source(family: &Family) -> String {
     let mut out = String::new();
     match family {
-        Family::Chain { depth, kind, placement, pure_helpers }
-        | Family::Diamond { depth, kind, placement, pure_helpers, .. } => {
+        Family::Chain { depth, kind, placement, pure_helpers, ptr_args }
+        | Family::Diamond { depth, kind, placement, pure_helpers, ptr_args, .. } => {
             let fan = match family {
                 Family::Diamond { fan, .. } => *fan,
                 _ => 1,
             };
             let pure_helpers = *pure_helpers;
+            let ptr_args = *ptr_args;
             out.push_str(GLOBALS);
             let v0 = is_value(*kind, 0);
             fn_open_p(&mut out, "fn0", v0, pure_helpers);
@@ -254,8 +268,30 @@ pub fn source(family: &Family) -> String {
                 fn_close_p(&mut out, v, pure_helpers);
             }
             let top_v = is_value(*kind, *depth);
-            entry(&mut out, 0, "cs_main", &format!("fn{depth}"), top_v);
-            entry(&mut out, 1, "fs_main", &format!("fn{depth}"), top_v);
+            if ptr_args {
+                // give every value-returning helper an extra pointer parameter and thread it
+                // through all calls: `fnK(x: f32)` -> `fnK(acc: ptr<function, f32>, x: f32)`
+                out = out.replace("(x: f32) -> f32 {", "(acc: ptr<function, f32>, x: f32) -> f32 {\n    *acc = *acc + 1.0;");
+                for level in 0..=*depth {
+                    out = out.replace(&format!("fn{level}(x)"), &format!("fn{level}(acc, x)"));
+                    out = out.replace(&format!("fn{level}(x * 0.5)"), &format!("fn{level}(acc, x * 0.5)"));
+                }
+                // void helpers have no `acc`: give them a local one
+                out = out.replace("let x = params.x;\n    var r = x;", "let x = params.x;\n    var r = x;\n    var acc_local = 0.0;\n    let acc = &acc_local;");
+                out = out.replace("let x = 0.75;\n    var r = x;", "let x = 0.75;\n    var r = x;\n    var acc_local = 0.0;\n    let acc = &acc_local;");
+                let before = out.len();
+                entry(&mut out, 0, "cs_main", &format!("fn{depth}"), top_v);
+                entry(&mut out, 1, "fs_main", &format!("fn{depth}"), top_v);
+                let tail = out.split_off(before);
+                let tail = tail.replace(
+                    &format!("let v = fn{depth}(params.y);"),
+                    &format!("var acc_local = 0.0;\n    let v = fn{depth}(&acc_local, params.y);"),
+                );
+                out.push_str(&tail);
+            } else {
+                entry(&mut out, 0, "cs_main", &format!("fn{depth}"), top_v);
+                entry(&mut out, 1, "fs_main", &format!("fn{depth}"), top_v);
+            }
         }
         Family::Fanout { sites, callers, kind } => {
             out.push_str(GLOBALS);
@@ -361,6 +397,30 @@ pub fn source(family: &Family) -> String {
                 depth / 2
             );
         }
+        Family::KernelLib { n } => {
+            for i in 0..*n {
+                let _ = writeln!(
+                    out,
+                    "@group({}) @binding({}) var<storage, read_write> kb{i}: array<f32>;",
+                    i / 128,
+                    i % 128
+                );
+            }
+            for i in 0..*n {
+                let _ = writeln!(out, "fn kh{i}(x: f32) -> f32 {{\n    return x * 2.0 + {i}.0;\n}}");
+            }
+            let _ = writeln!(out, "fn shared_fan(x: f32) -> f32 {{\n    var t = x;");
+            for i in 0..*n {
+                let _ = writeln!(out, "    t = t + kh{i}(t);");
+            }
+            let _ = writeln!(out, "    return t;\n}}");
+            for i in 0..*n {
+                let _ = writeln!(
+                    out,
+                    "@compute @workgroup_size(1)\nfn ke{i}() {{\n    kb{i}[0] = shared_fan(1.0);\n}}"
+                );
+            }
+        }
         Family::Wide { entries, globals, members, vertex_structs } => {
             let _ = writeln!(out, "struct Wm {{");
             for m in 0..(*members).max(1) {
@@ -460,7 +520,7 @@ pub fn token_count(src: &str) -> u64 {
 /// Hard CPU-time cap per case (the process is killed) and the threshold above which a finished
 /// case counts as a violation. Cases on the unchanged tree need 1-40 ms.
 pub const CPU_CASE_CAP_S: u64 = 10;
-pub const CPU_CASE_LIMIT_MS: u64 = 5000;
+pub const CPU_CASE_LIMIT_MS: u64 = 2000;
 
 pub fn budget(src: &str) -> u64 {
     let l = token_count(src);
@@ -579,26 +639,32 @@ pub fn systematic_families() -> Vec<Family> {
     let mut v = Vec::new();
     for kind in 0..3u8 {
         for depth in [1, 2, 4, 8, 16, 24, 32, 48, 64] {
-            v.push(Family::Chain { depth, kind, placement: 0, pure_helpers: false });
+            v.push(Family::Chain { depth, kind, placement: 0, pure_helpers: false, ptr_args: false });
+            if depth >= 16 && kind != 1 {
+                v.push(Family::Chain { depth, kind, placement: 0, pure_helpers: depth % 32 == 0, ptr_args: true });
+            }
             if depth >= 16 {
-                v.push(Family::Chain { depth, kind, placement: 0, pure_helpers: true });
+                v.push(Family::Chain { depth, kind, placement: 0, pure_helpers: true, ptr_args: false });
             }
         }
         for depth in [2, 8, 16, 32, 64] {
-            v.push(Family::Diamond { depth, fan: 2, kind, placement: 0, pure_helpers: false });
+            v.push(Family::Diamond { depth, fan: 2, kind, placement: 0, pure_helpers: false, ptr_args: false });
+            if depth >= 16 && kind != 1 {
+                v.push(Family::Diamond { depth, fan: 2, kind, placement: 0, pure_helpers: false, ptr_args: true });
+            }
             if depth >= 16 {
-                v.push(Family::Diamond { depth, fan: 2, kind, placement: 0, pure_helpers: true });
+                v.push(Family::Diamond { depth, fan: 2, kind, placement: 0, pure_helpers: true, ptr_args: false });
             }
         }
-        v.push(Family::Diamond { depth: 40, fan: 3, kind, placement: 2, pure_helpers: kind == 1 });
+        v.push(Family::Diamond { depth: 40, fan: 3, kind, placement: 2, pure_helpers: kind == 1, ptr_args: false });
         for sites in [1, 10, 50, 200] {
             v.push(Family::Fanout { sites, callers: 1, kind });
         }
         v.push(Family::Fanout { sites: 20, callers: 10, kind });
     }
     for placement in 1..6u8 {
-        v.push(Family::Chain { depth: 40, kind: 2, placement, pure_helpers: placement % 2 == 0 });
-        v.push(Family::Diamond { depth: 30, fan: 2, kind: 2, placement, pure_helpers: placement % 2 == 1 });
+        v.push(Family::Chain { depth: 40, kind: 2, placement, pure_helpers: placement % 2 == 0, ptr_args: placement == 3 });
+        v.push(Family::Diamond { depth: 30, fan: 2, kind: 2, placement, pure_helpers: placement % 2 == 1, ptr_args: placement == 4 });
     }
     for (depth, width, callees) in [(8, 4, 2), (16, 4, 3), (32, 6, 4), (64, 3, 2), (64, 5, 4)] {
         v.push(Family::Dag { depth, width, callees, seed: 11, entries: 3, pure_helpers: false });
@@ -619,6 +685,9 @@ pub fn systematic_families() -> Vec<Family> {
     {
         v.push(Family::Wide { entries, globals, members, vertex_structs });
     }
+    for n in [8, 75, 150, 300, 400] {
+        v.push(Family::KernelLib { n });
+    }
     for (functions, structs, bindings) in [(10, 2, 2), (60, 10, 8), (200, 30, 16), (400, 60, 16)] {
         v.push(Family::Flat { functions, structs, bindings });
     }
@@ -632,6 +701,7 @@ pub fn random_family(rng: &mut Rng) -> Family {
             kind: rng.below(3) as u8,
             placement: rng.below(12) as u8,
             pure_helpers: rng.chance(400),
+            ptr_args: rng.chance(250),
         },
         2..=3 => Family::Diamond {
             depth: rng.range(1, 64) as u32,
@@ -639,6 +709,10 @@ pub fn random_family(rng: &mut Rng) -> Family {
             kind: rng.below(3) as u8,
             placement: rng.below(12) as u8,
             pure_helpers: rng.chance(400),
+            ptr_args: rng.chance(250),
+        },
+        4 if rng.chance(300) => Family::KernelLib {
+            n: rng.range(1, 400) as u32,
         },
         4 => Family::Fanout {
             sites: rng.range(1, 200) as u32,
